@@ -441,6 +441,40 @@ def twin_leg(model, prog, retort, report):
                        f"class Twin (same values, members {[m.name for m in members]}): load({a[1]!r}) = {la[1]!r} but {lb[1]!r} without the map")
 
 
+def bystander_leg(model, prog, retort, report):
+    """the representation of a Flag class is chosen by the flag providers and that of a plain Enum class by the enum providers:
+    a predicate-less provider of the OTHER family standing in the recipe ('used for all Enums' / 'for all Flags') must change
+    nothing for this class (differential against the default retort of the same modes, no expectation written by hand)"""
+    if prog["provider"] not in ("default_flag", "default_enum"):
+        return
+    others = ([("enum_by_name()", enum_by_name()), ("enum_by_exact_value()", enum_by_exact_value())] if model.is_flag else
+              [("flag_by_exact_value()", flag_by_exact_value()), ("flag_by_member_names()", flag_by_member_names())])
+
+    def attempt(fn, *a):
+        try:
+            return ("ok", fn(*a))
+        except Exception as e:  # noqa: BLE001
+            return ("err", type(e).__name__)
+    for text, provider in others:
+        other = Retort(recipe=[provider], strict_coercion=prog["strict"], debug_trail=DebugTrail[prog["trail"]])
+        for v in model.values():
+            report.evaluations += 1
+            a, b = attempt(other.dump, v, model.cls), attempt(retort.dump, v, model.cls)
+            report.outcome("bystander:dump:" + b[0])
+            if a != b:
+                _violation(report, model, prog, "bystander_provider_captures_class",
+                           f"with {text} in the recipe dump({v!r}) gives {a[1]!r}, the default retort gives {b[1]!r}", value=v)
+                break
+            if b[0] != "ok":
+                continue
+            la, lb = attempt(other.load, b[1], model.cls), attempt(retort.load, b[1], model.cls)
+            if la[0] != lb[0] or (la[0] == "ok" and not model.same_value(la[1], lb[1])) or (la[0] == "err" and la[1] != lb[1]):
+                _violation(report, model, prog, "bystander_provider_captures_class",
+                           f"with {text} in the recipe load({codec.show(b[1], 60)}) gives {la[1]!r}, the default retort gives {lb[1]!r}",
+                           value=v)
+                break
+
+
 def run_program(model, prog, report, foreign):  # noqa: C901, PLR0912, PLR0915
     ref = RefProgram(model, prog, foreign)
     cls = model.cls
@@ -470,6 +504,7 @@ def run_program(model, prog, report, foreign):  # noqa: C901, PLR0912, PLR0915
         report.case(key)
         return
     twin_leg(model, prog, retort, report)
+    bystander_leg(model, prog, retort, report)
     loader, dumper = made.get("loader"), made.get("dumper")
     n = 0
     n_acc = n_rej = 0
